@@ -616,6 +616,34 @@ pub fn c11_removal_programs() -> Vec<Arc<Prog>> {
     ]
 }
 
+/// Closing while background work runs: level 0 holds four overlapping tables with both keys, the
+/// writer's rotation adds a flush, an automatic compaction merges several entries — and the main
+/// thread closes the database as soon as the writer and the reader have returned, wherever the
+/// compaction thread is at that moment (Drop raises the shutdown flag and waits for it). After the
+/// reopen every acknowledged write must be there.
+pub fn close_during_compaction_programs() -> Vec<Arc<Prog>> {
+    // (the threads write key c only: the newest versions of a and b live in the tables that the
+    // compaction merges, so an entry the merge did not reach is visibly missing after the reopen)
+    let setup = vec![
+        Put(0, 1, 8), Put(1, 11, 8), Flush, Put(0, 2, 8), Put(1, 12, 8), Flush, Put(0, 3, 8), Put(1, 13, 8), Flush, Put(0, 4, 8), Put(1, 14, 8), Flush, Put(0, 5, 8), Put(1, 15, 8),
+        Flush, Put(0, 6, 8),
+    ];
+    let keys = vec![b"a".to_vec(), b"b".to_vec(), b"c".to_vec()];
+    let mut a = (*prog("close during auto-compaction: writer-rotating||get", setup.clone(), vec![vec![Put(2, 7, 8), Put(2, 8, 8), Put(2, 9, 8)], vec![Get(1)]])).clone();
+    a.judge_under_fault = true;
+    a.strict_unlink = false;
+    a.keys = keys.clone();
+    // (a memtable that holds two small writes: only the explicit flushes of the setup make tables,
+    // the third write of the writer rotates)
+    a.cfg = Cfg::new(crate::world::M2_MEMTABLE, 300, 16, true);
+    let mut b = (*prog("close during manual compaction: compact||put", setup, vec![vec![Compact(None, None)], vec![Put(2, 7, 8)]])).clone();
+    b.judge_under_fault = true;
+    b.strict_unlink = false;
+    b.keys = keys;
+    b.cfg = Cfg::new(crate::world::M2_MEMTABLE, 300, 16, true);
+    vec![Arc::new(a), Arc::new(b)]
+}
+
 /// C11 "nothing dead is kept", schedule x fault: one reader whose table reads fail runs against a
 /// writer / flush / compaction that installs new versions meanwhile; only the reader's filesystem
 /// calls fail, so the background work stays healthy. After the threads have joined the fault is
